@@ -15,8 +15,10 @@
    - [oke]: literals are single characters and class nodes have size 1 (parser invariants), every
      backreference names a group opened earlier (what the analysis checks), counted repeats have
      lo <= hi (what the parser checks), and the pattern contains no conditional (known finding
-     F-condleak shows the statement is FALSE for conditionals under an atomic cut) and no
-     look-behind over an alternation of different lengths. *)
+     F-condleak shows the statement is FALSE for conditionals under an atomic cut).
+   Look-behinds over alternations of different lengths are inside the scope: the compiler turns
+   them into an alternation (positive) / a sequence (negative) of look-behinds, and the reference
+   semantics reads them the same way (Oniguruma's reading). *)
 From FR Require Import Base State Utf8 Utf8Facts Chars Ast Analyze Sem SemSound Vm Compile
                        Machine CompileCorrect RunCorrect EndToEnd.
 From Coq Require Import NArith Lia.
